@@ -13,27 +13,40 @@ target; `nonAscii` = `!address.IsASCII(to)`; `convertible` = `address.ToASCII(to
 `accept` = the next hop answers 2xx to RCPT for it (in whatever spelling it is sent). -/
 structure Rcpt where
   id : Nat
+  /-- the key of `remoteDelivery.connections`: the recipient domain *as spelled* (two spellings
+  of one domain — letter case, A-label/U-label — are two keys, hence two connections). -/
   dom : Nat
   nonAscii : Bool
   convertible : Bool
   accept : Bool
+  /-- the connection breaks while this RCPT is in flight (421 + close, close, reset, time-out):
+  `C.Rcpt` returns an error and nothing more can be done on that connection. -/
+  fault : Bool := false
 deriving Repr, DecidableEq
 
-/-- `smtpconn.C`: the per-connection list of accepted recipients used as status keys. -/
+/-- `smtpconn.C`: the per-connection list of accepted recipients used as status keys (`rcpts`),
+next to what the server at the other end holds for the current transaction (`wire`: the RCPT
+commands it answered 250) and whether the connection is still alive. -/
 structure Conn where
   rcpts : List Nat := []
+  wire : List Nat := []
+  dead : Bool := false
   errored : Bool := false
 deriving Repr
 
-/-- `C.Mail`: a new transaction starts with no accepted recipients. -/
-def Conn.mail (_c : Conn) : Conn := { rcpts := [], errored := false }
+/-- `C.Mail`: a new transaction starts with no accepted recipients. (Only connections that
+answered RSET — `mxConn.Usable` — are ever taken from the pool, so the connection is alive.) -/
+def Conn.mail (_c : Conn) : Conn := { rcpts := [], wire := [], dead := false, errored := false }
 
 /-- Can the address be put on the wire (`C.Rcpt`: conversion when the server lacks SMTPUTF8)? -/
 def sendable (utf8 : Bool) (r : Rcpt) : Bool := !r.nonAscii || utf8 || r.convertible
 
 /-- `C.Rcpt`: on acceptance the address *as given* is recorded. Returns (conn, accepted?). -/
 def Conn.rcpt (c : Conn) (utf8 : Bool) (r : Rcpt) : Conn × Bool :=
-  if sendable utf8 r && r.accept then ({ c with rcpts := c.rcpts ++ [r.id] }, true) else (c, false)
+  if c.dead || !sendable utf8 r then (c, false)                 -- I/O error / refused locally: nothing reaches the server
+  else if r.fault then ({ c with dead := true }, false)          -- the connection dies under this RCPT
+  else if r.accept then ({ c with rcpts := c.rcpts ++ [r.id], wire := c.wire ++ [r.id] }, true)
+  else (c, false)
 
 abbrev Pool := List (Nat × Conn)      -- idle connections by recipient domain
 
@@ -74,11 +87,16 @@ def keys (conns : Conns) : List Nat := conns.flatMap (fun e => e.2.rcpts)
 
 /-- `remoteDelivery.BodyNonAtomic`: one status per entry of every connection's `Rcpts()`. -/
 def bodyStatuses (conns : Conns) (dataFail : Nat → Bool) : List (Nat × Bool) :=
-  conns.flatMap (fun e => e.2.rcpts.map (fun id => (id, !dataFail e.1)))
+  conns.flatMap (fun e => e.2.rcpts.map (fun id => (id, !e.2.dead && !dataFail e.1)))
+
+/-- What the next hop holds afterwards: the recipients of every transaction whose end-of-data it
+answered 250 (DATA on a dead connection never gets there). -/
+def delivered (conns : Conns) (dataFail : Nat → Bool) : List Nat :=
+  conns.flatMap (fun e => if !e.2.dead && !dataFail e.1 then e.2.wire else [])
 
 /-- `remoteDelivery.Close`: usable connections go back to the pool. -/
 def closeDelivery (conns : Conns) (dataFail : Nat → Bool) (pool : Pool) : Pool :=
-  pool ++ (conns.filter (fun e => !dataFail e.1))
+  pool ++ (conns.filter (fun e => !e.2.dead && !dataFail e.1))
 
 structure Tx where
   rcpts : List Rcpt
@@ -87,13 +105,16 @@ structure Tx where
 structure TxObs where
   adds : List (Nat × Bool)
   statuses : List (Nat × Bool)
+  /-- ground truth at the next hop: recipients of the transactions it completed with 250 -/
+  delivered : List Nat := []
 
 /-- One transaction against the pool. (With no accepted recipient the delivery is aborted and
 no status is reported.) -/
 def runTx (utf8 : Bool) (pool : Pool) (tx : Tx) : Pool × TxObs :=
   let ((conns, pool', recips), adds) := addAll utf8 ([], pool, []) tx.rcpts
   let sts := if recips.isEmpty then [] else bodyStatuses conns tx.dataFail
-  (closeDelivery conns tx.dataFail pool', ⟨adds, sts⟩)
+  let dl := if recips.isEmpty then [] else delivered conns tx.dataFail
+  (closeDelivery conns tx.dataFail pool', ⟨adds, sts, dl⟩)
 
 def runHistory (utf8 : Bool) : Pool → List Tx → List TxObs
   | _, [] => []
